@@ -30,7 +30,7 @@ Proof.
 Qed.
 
 (* ------------------------------------------------------------------ *)
-(* the string builders                                                 *)
+(* the string builders AS FOUND (the repaired ones: ProducersRT.v)     *)
 (* ------------------------------------------------------------------ *)
 (* "says the same thing": the fields the property names, module by module *)
 Definition same_module (a b : module) : Prop :=
@@ -39,12 +39,12 @@ Definition same_module (a b : module) : Prop :=
 Definition same_design (a b : netlist) : Prop :=
   Forall2 same_module (nl_modules a) (nl_modules b) /\ nl_nets a = nl_nets b.
 
-(* full statements (false of the code as it is: F14b, F14c) *)
-Definition solution_netlist_rt_statement : Prop :=
-  forall sqrt_o e doc n t, read_netlist sqrt_o e doc = Ok n -> solution_to_netlist n [] = Some t ->
+(* full statements for the code as found (false: F14b, F14c) *)
+Definition solution_found_rt_statement : Prop :=
+  forall sqrt_o e doc n t, read_netlist sqrt_o e doc = Ok n -> solution_to_netlist_found n [] = Some t ->
   exists n', read_netlist sqrt_o e t = Ok n' /\ same_design n n'.
-Definition legal_netlist_rt_statement : Prop :=
-  forall sqrt_o e doc n t, read_netlist sqrt_o e doc = Ok n -> legal_netlist n = Some t ->
+Definition legal_found_rt_statement : Prop :=
+  forall sqrt_o e doc n t, read_netlist sqrt_o e doc = Ok n -> legal_netlist_found n = Some t ->
   exists n', read_netlist sqrt_o e t = Ok n' /\ same_design n n'.
 
 (* the epsilons the refutations run with (already defined: sqrt is not consulted) *)
@@ -66,10 +66,10 @@ Definition doc_terminal : ytree :=
                ("T", YMap [(KW_TERMINAL, YBool true); (KW_CENTER, YList [num 0; num 3])])]
               [YList [YStr "A"; YStr "T"]].
 
-Lemma solution_netlist_rt_refuted : forall sqrt_o,
-  (exists n t n', read_netlist sqrt_o eps_ref doc_weight = Ok n /\ solution_to_netlist n [] = Some t /\
+Lemma solution_found_refuted : forall sqrt_o,
+  (exists n t n', read_netlist sqrt_o eps_ref doc_weight = Ok n /\ solution_to_netlist_found n [] = Some t /\
                   read_netlist sqrt_o eps_ref t = Ok n' /\ map n_weight (nl_nets n') <> map n_weight (nl_nets n)) /\
-  (exists n t r, read_netlist sqrt_o eps_ref doc_terminal = Ok n /\ solution_to_netlist n [] = Some t /\
+  (exists n t r, read_netlist sqrt_o eps_ref doc_terminal = Ok n /\ solution_to_netlist_found n [] = Some t /\
                  read_netlist sqrt_o eps_ref t = Reject r).
 Proof.
   intro sqrt_o. split.
@@ -85,8 +85,8 @@ Definition doc_weight_rects : ytree :=
                ("B", rect_mod (qc 2 1) [num 6; num 2; num 2; num 1])]
               [YList [YStr "A"; YStr "B"; yfloat (qc 5 2)]].
 
-Lemma legal_netlist_rt_refuted : forall sqrt_o,
-  exists n t n', read_netlist sqrt_o eps_ref doc_weight_rects = Ok n /\ legal_netlist n = Some t /\
+Lemma legal_found_refuted : forall sqrt_o,
+  exists n t n', read_netlist sqrt_o eps_ref doc_weight_rects = Ok n /\ legal_netlist_found n = Some t /\
                  read_netlist sqrt_o eps_ref t = Ok n' /\
                  map n_weight (nl_nets n') <> map n_weight (nl_nets n) /\
                  map mr_region (nl_rects n') <> map mr_region (nl_rects n).
@@ -95,3 +95,15 @@ Proof.
   eexists. eexists. eexists. split; [vm_compute; reflexivity|]. split; [vm_compute; reflexivity|].
   split; [vm_compute; reflexivity|]. split; vm_compute; discriminate.
 Qed.
+
+(* rect_io.get_netlist as found: 0/0 when the first two cells list a module with ratio 0
+   (ZeroDivisionError); the repaired function gives the module of the third cell *)
+Definition zero_ratio_cells : list cell :=
+  [mkCell (mkRect (qc 1 1) (qc 1 1) (qc 2 1) (qc 2 1) false false KW_GROUND NOPOLY) [("M2", 0)] 0;
+   mkCell (mkRect (qc 3 1) (qc 1 1) (qc 2 1) (qc 2 1) false false KW_GROUND NOPOLY) [("M2", 0)] 0;
+   mkCell (mkRect (qc 5 1) (qc 1 1) (qc 2 1) (qc 2 1) false false KW_GROUND NOPOLY) [("M2", 1)] 0].
+Lemma alloc_netlist_found_refuted :
+  accepted 0 zero_ratio_cells /\ alloc_netlist_doc_found zero_ratio_cells = None /\
+  alloc_netlist_doc zero_ratio_cells =
+    (netlist_doc [("M2", YMap [(KW_AREA, yfloat (qc 4 1)); (KW_CENTER, YList [yfloat (qc 5 1); yfloat (qc 1 1)])])] []).
+Proof. split; [|split]; vm_compute; reflexivity. Qed.
